@@ -2,4 +2,5 @@ SPECIFICATION Spec
 INVARIANT Inv_Fxp
 INVARIANT Inv_FxpUn
 INVARIANT Inv_FxpNew
+INVARIANT Inv_FxpAssert
 CHECK_DEADLOCK FALSE
